@@ -62,7 +62,19 @@ pub fn schema_to_ty(schema: &Schema, spec: &OpenAPI) -> Ty {
             }
         }
         SchemaKind::Type(oa::Type::Boolean {}) => Ty::Boolean,
-        SchemaKind::Type(oa::Type::Object(_)) => Ty::Any(Some(schema.clone())),
+        SchemaKind::Type(oa::Type::Object(o)) => {
+            // an object with only `additionalProperties` is a map, wherever it occurs
+            match &o.additional_properties {
+                Some(p) if o.properties.is_empty() => {
+                    let inner = match p {
+                        oa::AdditionalProperties::Any(_) => Ty::default(),
+                        oa::AdditionalProperties::Schema(s) => schema_ref_to_ty(s, spec),
+                    };
+                    Ty::HashMap(Box::new(inner))
+                }
+                _ => Ty::Any(Some(schema.clone())),
+            }
+        }
         SchemaKind::Type(oa::Type::Array(ArrayType { items: Some(item), .. })) => {
             let inner = schema_ref_to_ty(&item, spec);
             Ty::Array(Box::new(inner))
